@@ -177,9 +177,56 @@ def run(rep, tier):
     # R8: location sets
     locsets.check_fields(prog, rep, "R8", CONTRA + COV + ["J"], arms=("orthogonal", "non-orthogonal"),
                          need=("centre", "xlow", "ylow"))
+    # R9: the closed forms hold for the arrays that are written: operands are not stored to after
+    # a component is computed, and no geometry field is kept from an earlier call
+    rep.rule("R9", "written arrays are the ones the components were computed from: no later store to an operand, no memoised geometry field")
+    locsets.check_fresh(prog, rep, "R9", CONTRA + COV + ["J", "hy"], ["orthogonal", "non-orthogonal", "orthogonal/capBp"])
+    memo_rule(prog, rep)
     rep.undecided("covariant components vs scalar products of actual displacements (numerical)")
     rep.undecided("accuracy of beta computed from radial neighbours")
     return __doc__
+
+
+def memo_rule(prog, rep):
+    """the geometry phases recompute every field on each call (points may have been moved by a
+    regrid in between): no store to a region field is guarded by a test of that field's own
+    existence (`hasattr(self, "hy")`, `self.hy is None`)"""
+    mod = prog.module(MESH)
+    order = locsets.phase_order(prog)
+    seen = set()
+    work = ["MeshRegion." + n for n in order]
+    bad = []
+    nfun = 0
+    while work:
+        qn = work.pop()
+        if qn in seen or qn not in mod.funcs:
+            continue
+        seen.add(qn)
+        f = mod.funcs[qn]
+        nfun += 1
+        for n in walk_own(f.node):
+            if isinstance(n, ast.Call) and isinstance(n.func, ast.Attribute) and is_self_attr(n.func) and "MeshRegion." + n.func.attr in mod.funcs:
+                work.append("MeshRegion." + n.func.attr)
+            if isinstance(n, ast.If):
+                tested = set()
+                for x in ast.walk(n.test):
+                    if isinstance(x, ast.Call) and isinstance(x.func, ast.Name) and x.func.id == "hasattr" and len(x.args) == 2 and isinstance(x.args[1], ast.Constant) \
+                            and isinstance(x.args[0], ast.Name) and x.args[0].id == "self":
+                        tested.add(x.args[1].value)
+                    if isinstance(x, ast.Compare) and is_self_attr(x.left) and any(isinstance(c, ast.Constant) and c.value is None for c in x.comparators):
+                        tested.add(x.left.attr)
+                for arm in (n.body, n.orelse):
+                    for s in arm:
+                        for y in ast.walk(s):
+                            if isinstance(y, ast.Assign):
+                                for t in y.targets:
+                                    if is_self_attr(t) and t.attr in tested:
+                                        bad.append((f, n, t.attr))
+    for f, n, a in bad:
+        rep.ob("R9", "%s: self.%s is recomputed on every call, not kept when it already exists" % (f.qualname, a), False, f.site(n),
+               "assignment guarded by `%s`: after a regrid the field would keep the value of the old point positions" % mod.code(n.test)[:80], key="memo/%s/%s" % (f.qualname, a))
+    rep.ob("R9", "no geometry-phase method memoises a region field (%d methods reachable from the phases)" % nfun, not bad, MESH, "", key="memo/none")
+    rep.floor("R9.phase-methods", nfun, 8)
 
 
 def r5(prog, rep, f):
